@@ -353,6 +353,22 @@ class Node:
             self.known.append(p)
         self.proto.data_store.completed_blobs.add(constants.generate_id(300).hex())
         self.task_started = False
+        self.pending_tasks = []
+
+    def send_pending(self, specs):
+        """the node has requests of its own in flight: for each [node id hex, address, udp port, rpc id hex, method]
+        the REAL KademliaProtocol.send_request is started (ping / findNode / findValue / store with that rpc id) and
+        left waiting for its answer: the rpc id sits in proto.sent_messages when the next datagram arrives"""
+        for nid, addr, port, rpc, method in specs:
+            peer = make_kademlia_peer(bytes.fromhex(nid), addr, int(port))
+            rpc = bytes.fromhex(rpc)
+            req = {'ping': lambda: RequestDatagram.make_ping(OWN_ID, rpc),
+                   'findNode': lambda: RequestDatagram.make_find_node(OWN_ID, BIG_BLOB, rpc),
+                   'findValue': lambda: RequestDatagram.make_find_value(OWN_ID, BIG_BLOB, rpc),
+                   'store': lambda: RequestDatagram.make_store(OWN_ID, BIG_BLOB, b't' * 48, 3333, rpc)}[method]()
+            self.pending_tasks.append(self.loop.create_task(self.proto.send_request(peer, req)))
+            self.loop.run_until_complete(asyncio.sleep(0))
+        return sorted(self.proto.sent_messages)
 
     def fill(self, announcers):
         """a busy node: 24 more contacts with the longest addresses / ports in the routing table and [announcers]
@@ -394,6 +410,12 @@ class Node:
         return False
 
     def close(self):
+        for t in self.pending_tasks:
+            t.cancel()
+            try:
+                self.loop.run_until_complete(t)
+            except BaseException:  # noqa
+                pass
         if self.task_started:
             self.proto.maintaing_routing_task.cancel()
             try:
@@ -849,6 +871,59 @@ def gen_repeated_invalid(rng):
     return prefix, last, sender
 
 
+def gen_rpc_id_echo(rng, count):
+    """the node has 1..3 requests of its own in flight (ping / findNode / findValue / store to X, a usable endpoint that is
+    a table contact or unknown, and sometimes to a second peer); then X -- or a third party that overheard the id -- sends
+    a datagram that is NOT a valid protocol request and re-uses the 20-byte rpc id of one of them (X has seen it in the
+    request it received): unknown method, findNode / findValue with a 47- or 49-byte key, store with a bad port or a short
+    hash, our own node id, a mangled tail, junk that merely contains the id; controls: the same with a fresh rpc id, and a
+    VALID request re-using the id.  yields (kind, pending, prefix, datagram, sender)"""
+    peers = [(constants.generate_id(102), ('9.9.2.9', 5002)), (None, ('5.6.7.8', 4445)), (None, ('200.1.1.1', 65535)),
+             (constants.generate_id(103), ('9.9.3.9', 5003)), (None, ('5.6.7.9', 4446))]
+    for n in range(count):
+        x_id, x_addr = peers[n % len(peers)]
+        x_id = x_id or rbytes(rng, 48)
+        methods = ['ping', 'findNode', 'findValue', 'store']
+        pending = [[x_id.hex(), x_addr[0], x_addr[1], rbytes(rng, 20).hex(), methods[n % 4]]]
+        for _ in range(rng.choice([0, 0, 1, 2])):
+            o_id, o_addr = rbytes(rng, 48), ('7.7.%d.7' % rng.randrange(1, 200), rng.randrange(1024, 65536))
+            pending.insert(rng.randrange(len(pending) + 1), [o_id.hex(), o_addr[0], o_addr[1], rbytes(rng, 20).hex(), rng.choice(methods)])
+        mine = next(bytes.fromhex(q[3]) for q in pending if q[0] == x_id.hex())
+        c = n % 12
+        same = c != 10
+        rpc = mine if same else rbytes(rng, 20)
+        sender = x_addr if c != 9 else ('5.6.8.8', 4447)          # c == 9: a third party re-uses the id
+        node = x_id if c != 9 else rbytes(rng, 48)
+        what = 'invalid request'
+        if c in (0, 9, 10):
+            d = _req(rpc, node, b'findNode', [rbytes(rng, 47)])
+        elif c == 1:
+            d = _req(rpc, node, rng.choice([b'pinf', b'', b'Store', b'pong', 'm\u00e9thode'.encode()]), [])
+        elif c == 2:
+            d = _req(rpc, node, b'findValue', [rbytes(rng, rng.choice([0, 47, 49]))])
+        elif c == 3:
+            d = _req(rpc, node, b'store', [rbytes(rng, 48), b't' * 48, rng.choice(BAD_PORTS), node, 0])
+        elif c == 4:
+            d = _req(rpc, node, b'store', [rbytes(rng, 47), b't' * 48, 5000, node, 0])
+        elif c == 5:
+            d = _req(rpc, OWN_ID, b'ping', [])                       # claims to be us
+        elif c == 6:
+            d = _req(rpc, node, b'findNode', [[0] * 48])
+        elif c == 7:
+            d, what = _req(rpc, node, b'findNode', [rbytes(rng, 48)])[:-rng.choice([1, 2, 3])] + rng.choice([b'', b'e', b'ee']), 'mangled request'
+        elif c == 8:
+            d, what = rng.choice([b'', b'd1:1', b'l', b'20:']) + rpc + rng.choice([b'', b'e']), 'junk carrying the id'
+        else:
+            d, what = _req(rpc, node, *rng.choice([(b'ping', []), (b'findNode', [rbytes(rng, 48)]), (b'findValue', [BIG_BLOB])])), 'VALID request'
+        prefix = None
+        if n % 5 == 4:      # X has already sent one invalid request with a fresh id while our request was in flight
+            prefix = [(_req(rbytes(rng, 20), node, b'findNode', [rbytes(rng, 47)]), sender)]
+        kind = 'own request in flight: %s %s' % (what, 'with the SAME rpc id' if same else 'with a fresh rpc id')
+        if c == 9:
+            kind += ' from a third party'
+        yield kind, pending, prefix, d, sender
+
+
 def gen_oversized(rng):
     """requests that are structurally fine but carry one very large field"""
     rpc, node = rbytes(rng, 20), rbytes(rng, 48)
@@ -946,15 +1021,17 @@ def violation_signature(data, obs, impl):
     return {'datagram': data.hex() if len(data) <= 400 else data[:400].hex() + '...', 'escaped': obs['escaped']}
 
 
-def check_datagram(ctx, data, sender, kind, expect=None, prefix=None, expect_peers=None, flood=0, fill=None, expect_reply=None):
+def check_datagram(ctx, data, sender, kind, expect=None, prefix=None, expect_peers=None, flood=0, fill=None, expect_reply=None, pending=None):
     """one datagram through the real handler, the real decode_datagram and the model; monitor + compare.
     prefix: earlier datagrams [(bytes, sender), ...] of the same sequence, delivered to a FRESH node first;
     expect_peers: (blob, [compact addresses]) the node must hand out in its findValue answer to this datagram;
     flood: that many distinct endpoints have each sent junk to the fresh node before (a long-running node);
     fill: the fresh node first gets 24 more contacts and that many announcers of BIG_BLOB (largest replies);
-    expect_reply: {'contacts': n, 'peers': m} the findValue / findNode answer must carry"""
+    expect_reply: {'contacts': n, 'peers': m} the findValue / findNode answer must carry;
+    pending: [[node id hex, address, udp port, rpc id hex, method], ...] requests of its OWN the fresh node has sent (real
+    send_request) and that are still unanswered when the datagram arrives"""
     run, model = ctx.run, ctx.model
-    if ctx.fed >= 400 or prefix or flood or fill is not None:
+    if ctx.fed >= 400 or prefix or flood or fill is not None or pending:
         ctx.fresh_node()
     ctx.fed += 1
     if ctx.node is not getattr(ctx, 'history_node', None):
@@ -972,6 +1049,11 @@ def check_datagram(ctx, data, sender, kind, expect=None, prefix=None, expect_pee
         ctx.fed = 10 ** 9
     if expect_reply:
         case['expect_reply'] = expect_reply
+    in_flight = []
+    if pending:
+        case['pending'] = [list(x) for x in pending]
+        in_flight = ctx.node.send_pending(pending)
+        ctx.fed = 10 ** 9
     if prefix:
         case['prefix'] = [[d.hex(), list(a)] for d, a in prefix]
         for d, a in prefix:
@@ -981,7 +1063,7 @@ def check_datagram(ctx, data, sender, kind, expect=None, prefix=None, expect_pee
         case['expect_peers'] = [expect_peers[0].hex(), [x.hex() for x in expect_peers[1]]]
     impl = impl_decode(data)
     obs = ctx.node.feed(data, tuple(sender))
-    if not prefix and not flood and fill is None:
+    if not prefix and not flood and fill is None and not pending:
         ctx.history.append((data, tuple(sender)))
     mod = model.call('decode', fuel_lo=FUEL_LO, fuel_hi=FUEL_HI, data=data.hex(), own=OWN_ID.hex())
     grey = vlib.canon({k: v for k, v in mod['lo'].items() if k != 'request_valid'}) != vlib.canon({k: v for k, v in mod['hi'].items() if k not in ('effect', 'request_valid')})
@@ -1032,7 +1114,9 @@ def check_datagram(ctx, data, sender, kind, expect=None, prefix=None, expect_pee
                 bad = (f"a request that is not a valid protocol request was not dropped with the sender's failure recorded: "
                        f"failure record of {key} before {obs['failures_before'].get(key)} (rated "
                        f"{'bad' if prev[0] is not None and prev[1] is not None else 'not bad'}), after "
-                       f"{obs['failures_after'].get(key)}, expected {want[key]}; replies {obs['replies']}")
+                       f"{obs['failures_after'].get(key)}, expected {want[key]}; replies {obs['replies']}"
+                       + (f"; the node had {len(in_flight)} request(s) of its own in flight, the datagram's rpc id "
+                          f"{'IS' if bytes.fromhex(impl['msg']['rpc_id']) in in_flight else 'is not'} one of theirs" if in_flight else ''))
             elif obs['replies'] != ['error']:
                 bad = f"a request that is not a valid protocol request was answered with {obs['replies'] or 'nothing'} instead of one error datagram"
     if not bad and obs['sent'] and any(tuple(a) != tuple(sender) for _d, a in ctx.node.transport.sent[-obs['sent']:]):
@@ -1094,7 +1178,7 @@ def check_datagram(ctx, data, sender, kind, expect=None, prefix=None, expect_pee
     if not bad and expect == 'drop' and 'msg' in impl:
         bad = ('a truncated datagram' if kind == 'truncation' else 'corpus datagram that must be dropped') + ' was accepted as ' + impl['msg']['cls']
     if bad:
-        if not prefix and not flood and fill is None and len(ctx.history) > 1 and sum(len(d) for d, _ in ctx.history) < 300000:
+        if not prefix and not flood and fill is None and not pending and len(ctx.history) > 1 and sum(len(d) for d, _ in ctx.history) < 300000:
             # the node's state matters: make the replay self-contained with everything this node received before
             case['prefix'] = [[d.hex(), list(a)] for d, a in ctx.history[:-1]]
         run.violation(case, bad, signature=violation_signature(data, obs, impl))
@@ -1502,6 +1586,8 @@ def main(run):
         'one length prefix or integer token rewritten (sign, whitespace, underscore, zeros, negative, off by one, huge), '
         'unknown-method requests whose echoed error text has 2/3/4-byte UTF-8 characters at every alignment around byte 256 and '
         'character 256; 2..5 invalid datagrams from one sender followed by one more invalid request (sender already rated bad); '
+        'a node with 1..3 requests of its OWN in flight (real send_request: ping / findNode / findValue / store to X) that then receives, from X '
+        'or a third party, an invalid request / mangled request / junk re-using the rpc id of the request in flight (controls: fresh id, valid request); '
         'a busy node (29 contacts with the longest addresses, 7 / 8 / 12 announcers of one blob) asked findValue page 0 / 1 and '
         'findNode: the largest replies; every method with 0..7 positional arguments (cut off / extended), the store ones also '
         'after a valid announcement of the same identity; a long-running node whose failure table (LRU of lbry.dht.peer.CACHE_SIZE = 16384 records, read at run time) has been '
@@ -1530,7 +1616,7 @@ def main(run):
         check_datagram(ctx, bytes.fromhex(c['datagram']), tuple(c.get('sender', SENDERS[0])), 'corpus', c.get('expect'),
                        prefix=[(bytes.fromhex(d), tuple(a)) for d, a in c.get('prefix', [])] or None,
                        expect_peers=(bytes.fromhex(ep[0]), [bytes.fromhex(x) for x in ep[1]]) if ep else None,
-                       flood=int(c.get('flood', 0)), fill=c.get('fill'), expect_reply=c.get('expect_reply'))
+                       flood=int(c.get('flood', 0)), fill=c.get('fill'), expect_reply=c.get('expect_reply'), pending=c.get('pending'))
     for c in load_corpus('messages'):
         check_message(ctx, c['m'], message_from_desc(c['m']), kind='corpus')
     lap('corpus')
@@ -1581,6 +1667,9 @@ def main(run):
     for i in range(vlib.scaled(T, 60, 2000)):
         prefix, d, sender = gen_repeated_invalid(rng)
         check_datagram(ctx, d, sender, 'sequence:invalid after %d invalid' % len(prefix), prefix=prefix)
+    # -- the node's own requests are in flight when a datagram re-using one of their rpc ids arrives --------------------
+    for kind, pending, prefix, d, sender in gen_rpc_id_echo(rng, vlib.scaled(T, 120, 3000)):
+        check_datagram(ctx, d, sender, kind, prefix=prefix, pending=pending)
     # -- a busy node: the largest replies (8 contacts with 15-character addresses and 5-digit ports, 8 peers, token) ----
     q_id, q_addr = b'Q' * 48, ('5.6.7.9', 4446)
     for ann in ((7, 8, 12) if T == 'quick' else (0, 1, 6, 7, 8, 9, 12, 17, 40)):
@@ -1740,7 +1829,8 @@ def replay(run, case):
         check_datagram(ctx, bytes.fromhex(case['datagram']), tuple(case['sender']), case.get('kind', 'replay'), case.get('expect'),
                        prefix=[(bytes.fromhex(d), tuple(a)) for d, a in case.get('prefix', [])] or None,
                        expect_peers=(bytes.fromhex(ep[0]), [bytes.fromhex(x) for x in ep[1]]) if ep else None,
-                       flood=int(case.get('flood', 0)), fill=case.get('fill'), expect_reply=case.get('expect_reply'))
+                       flood=int(case.get('flood', 0)), fill=case.get('fill'), expect_reply=case.get('expect_reply'),
+                       pending=case.get('pending'))
     elif op == 'lru':
         check_lru(ctx, int(case['cap']), case['ops'])
     elif op == 'failure-table':
